@@ -397,6 +397,36 @@ impl Network {
 }
 
 impl Network {
+    /// An upper limit for the number of vehicles in a schedule, used as "unlimited" capacity:
+    /// every service trip is served by its own vehicles (as many as its passengers require, at
+    /// least one) and every maintenance track hosts one more vehicle.
+    pub fn vehicle_upper_limit(
+        service_trips: &HashMap<VehicleTypeIdx, Vec<ServiceTrip>>,
+        maintenance_slots: &[MaintenanceSlot],
+        vehicle_types: &VehicleTypes,
+    ) -> VehicleCount {
+        let vehicles_for_trips: VehicleCount = service_trips
+            .iter()
+            .map(|(vehicle_type, trips)| {
+                let vehicle_type = vehicle_types.get(*vehicle_type).unwrap();
+                trips
+                    .iter()
+                    .map(|trip| {
+                        trip.passengers()
+                            .div_ceil(vehicle_type.capacity())
+                            .max(trip.seated().div_ceil(vehicle_type.seats()))
+                            .max(1)
+                    })
+                    .sum::<VehicleCount>()
+            })
+            .sum();
+        let vehicles_for_maintenance: VehicleCount = maintenance_slots
+            .iter()
+            .map(|slot| slot.track_count())
+            .sum();
+        vehicles_for_trips + vehicles_for_maintenance
+    }
+
     /// create a new network from the given data.
     /// The nodes idx must be in such a way that service_trips flattened and then maintenance
     /// nodes as vec gives the index within the vector.
@@ -419,21 +449,10 @@ impl Network {
         let mut latest_datetime = DateTime::Earliest;
 
         // add overflow depot:
-        // its has infinity capacity for all types (i.e., service trips * maximal_formation_count)
+        // its has infinity capacity for all types (i.e., enough for every vehicle of any schedule)
         // but it is located Nowhere, i.e. Distance is Infinity to all other locations
-        let number_of_service_nodes = service_trips.values().map(|vec| vec.len()).sum::<usize>();
-        let max_formation_count = vehicle_types
-            .iter()
-            .map(|vt| {
-                vehicle_types
-                    .get(vt)
-                    .unwrap()
-                    .maximal_formation_count()
-                    .unwrap_or(1)
-            })
-            .max()
-            .unwrap_or(1);
-        let overflow_capacity = number_of_service_nodes as VehicleCount * max_formation_count;
+        let overflow_capacity =
+            Network::vehicle_upper_limit(&service_trips, &maintenance_slots, &vehicle_types);
         let overflow_depot_id = DepotIdx::from(depots.len() as Idx);
         let overflow_depot = Depot::new(
             overflow_depot_id,
